@@ -61,6 +61,14 @@ func writeLine(w io.Writer, line []byte) error {
 	if _, err := w.Write(line); err != nil {
 		return err
 	}
+	// the data file readers split lines with bufio.ScanLines, which drops one
+	// CR in front of the newline: a line that still ends in CR has to be
+	// written with that CR doubled, or it is read back one byte shorter
+	if n := len(line); n > 0 && line[n-1] == '\r' {
+		if _, err := w.Write([]byte("\r")); err != nil {
+			return err
+		}
+	}
 	if _, err := w.Write([]byte("\n")); err != nil {
 		return err
 	}
